@@ -31,6 +31,8 @@ M = {
     "paper_checks_root_bankrupt": ("core.py", "                if not self._paper.bankrupt:\n", "                if not self.root.bankrupt:\n"),
     "paper_half_notional": ("core.py", "            paper.adjust(self._paper_amount)", "            paper.adjust(self._paper_amount / 2)"),
     "paper_every_update": ("core.py", "        if self._paper_trade:\n            if newpt:\n", "        if self._paper_trade:\n            if True:\n"),
+    "no_template_copy": ("backtest.py", "        self.strategy = deepcopy(strategy)\n", "        self.strategy = deepcopy(strategy) if strategy.children else strategy\n"),
+    "has_run_not_set": ("backtest.py", "        self.has_run = True\n", "        self.has_run = False\n"),
     "pre_f01": ("core.py", "def _w(series):", "def _w(series):\n    return series.values\n\n\ndef _w_orig(series):"),
 }
 
